@@ -448,6 +448,19 @@ def big_document(rnd, size):
     return ''.join(out)
 
 
+def dense_document(nchars, shift):
+    """few long lines of multi-byte characters: with shift 0, 1, 2 every byte offset of the UTF-8 form (every 2^k decode or
+    refill block boundary, whatever the block size) lies inside a 3-byte sequence for two of the three shifts; every 50th
+    character is a 2-byte or a 4-byte one (a surrogate pair in UTF-16) so that the other residues and UTF-16 pairs occur too"""
+    out, n, k = ['#' + 'x' * shift + '\n'], 0, 0
+    while n < nchars:
+        run = ''.join('\u4e2d' if i % 50 else ('\xe9' if (i // 50) % 2 else '\U0001F600') for i in range(1, 1200))
+        out.append('k%d: %s\n' % (k, run))
+        n += len(out[-1])
+        k += 1
+    return ''.join(out)
+
+
 def corpus_documents(tier, rnd):
     """(name, text, tails, spans): corpus files as they are, mutated (non-printable inserted, syntax damaged, undecodable bytes
     appended or inserted, truncated inside a sequence) and generated documents longer than three real blocks"""
@@ -519,6 +532,11 @@ def corpus_documents(tier, rnd):
                      {'utf-8': 2, 'utf-16-be': 2}, ('c',)))
         if not q:
             docs.append(('generated-%d~np' % sz, t[:k] + '\x7f' + t[k:], {}, {}, ('c',)))
+    # in-memory and stream forms whose encoded length crosses 2^16 (UTF-8: 24 k characters = 72 KB; thorough also 2^17 and
+    # 2^16 in UTF-16), every offset inside a character for some shift: both back-ends, every form
+    for nchars in ([24000] if q else [24000, 46000]):
+        for shift in (0, 1, 2):
+            docs.append(('dense-%d-%d' % (nchars, shift), dense_document(nchars, shift), {}, {}, ('py', 'c')))
     return [d if len(d) == 5 else d + (('py', 'c'),) for d in docs]
 
 
